@@ -1130,10 +1130,16 @@ func (s *Session) LoadPackages(pkg *PackageData) (*sources.Sources, error) {
 	}
 
 	// Try to load the package from the build cache.
+	// A package imported by a local path (".", "./cmd/x") has no unique import
+	// path to be used as a build cache key, so it is never cached.
+	buildCache := s.buildCache
+	if build.IsLocalImport(pkg.ImportPath) {
+		buildCache = nil
+	}
 	var srcs *sources.Sources
-	if s.buildCache != nil {
+	if buildCache != nil {
 		cachedSrcs := &sources.Sources{}
-		if s.buildCache.Load(cachedSrcs, pkg.ImportPath, pkg.SrcModTime) {
+		if buildCache.Load(cachedSrcs, pkg.ImportPath, pkg.SrcModTime) {
 			srcs = cachedSrcs
 		}
 	}
@@ -1163,8 +1169,8 @@ func (s *Session) LoadPackages(pkg *PackageData) (*sources.Sources, error) {
 		}
 
 		// Store the built package in the cache for future use.
-		if s.buildCache != nil {
-			s.buildCache.Store(srcs, srcs.ImportPath, time.Now())
+		if buildCache != nil {
+			buildCache.Store(srcs, srcs.ImportPath, time.Now())
 		}
 	}
 
